@@ -56,6 +56,13 @@ def small_region(rng, kind=None, compound_depth=0, base=None):
     return d
 
 
+def inner_included(d):
+    """no include=False flag strictly below the top level."""
+    if d['kind'] != 'compound':
+        return True
+    return all(G.truthy(x.get('include', 'absent')) and inner_included(x) for x in (d['a'], d['b']))
+
+
 class Check(PropertyCheck):
     id = 'C02'
     lean_targets = ['RegionsVerif.Props.C02', 'RegionsVerif.Props.C02Mask', 'RegionsVerif.Props.C02Fast', 'RegionsVerif.Props.C08',
@@ -128,7 +135,14 @@ class Check(PropertyCheck):
                 if abs(k - round(k)) < 1e-6:
                     return frac(Fraction(int(round(k)), n * n))
             return frac(Fraction(v))
-        return {'bbox': [int(b.ixmin), int(b.ixmax), int(b.iymin), int(b.iymax)],
+        member = None
+        if n == 1 and m.data.size <= 40000:
+            # the property's own wording: pixel (ix, iy) is 1 exactly when the pixel centre is a member
+            from regions import PixCoord
+            yy, xx = np.mgrid[int(b.iymin):int(b.iymax), int(b.ixmin):int(b.ixmax)]
+            member = np.asarray(reg.contains(PixCoord(xx, yy)), dtype=int).tolist() if xx.size else []
+        return {'member': member,
+                'bbox': [int(b.ixmin), int(b.ixmax), int(b.iymin), int(b.iymax)],
                 'bbox_same': [int(rb.ixmin), int(rb.ixmax), int(rb.iymin), int(rb.iymax)] == [int(b.ixmin), int(b.ixmax), int(b.iymin), int(b.iymax)],
                 'shape': list(m.data.shape),
                 'data': [[cell(v) for v in row] for row in np.asarray(m.data, dtype=float).tolist()]}
@@ -258,6 +272,13 @@ class Check(PropertyCheck):
                 if n == 1 and Fraction(rv) not in (0, 1):
                     bad('center_mask_not_binary', f'{rv}')
                     return V
+                if n == 1 and real.get('member') is not None and bnd == 0 and inner_included(d):
+                    # the mask against the region's own contains() at the pixel centre (masks are those of the
+                    # INCLUDED region: the top-level flag is undone; compounds with an excluded operand are skipped)
+                    mem = bool(real['member'][j][i]) == G.truthy(d.get('include', 'absent'))
+                    if mem != (Fraction(rv) == 1):
+                        bad('mask_differs_from_contains', f'pixel ({box[0] + i},{box[2] + j}) mask {rv} contains {real["member"][j][i]}')
+                        return V
         return V
 
     def nontrivial(self, case, real):
